@@ -67,7 +67,7 @@ pub struct PropCase {
     pub ctx: u8,
     pub id: u8,
     pub value: usize,
-    /// 0 fresh connection, 1 requests in flight, 2 send quota exhausted, 3 dead handle
+    /// 0 fresh connection, 1 requests in flight, 2 send quota exhausted, 3 dead handle, 4 table of requests in flight full
     pub state: u8,
     /// QoS of the publish (ctx 0)
     pub qos: u8,
@@ -117,6 +117,14 @@ fn prepare(bench: &crate::bench::Bench, conn: &mut Connection<'_, '_, VirtualIo>
         }
         if let Some(Ok(Some(h))) = bench.run(conn.publish(Publication::bytes("t", b"b").qos(QoS::ExactlyOnce)), id) {
             handles.push(h);
+        }
+    }
+    if state == 4 {
+        // the table of requests awaiting an acknowledgement is full
+        for i in 0..9u8 {
+            if let Some(Ok(Some(h))) = bench.run(conn.publish(Publication::bytes("t", &[i][..]).qos(QoS::AtLeastOnce)), id) {
+                handles.push(h);
+            }
         }
     }
     if state == 3 {
@@ -632,7 +640,7 @@ pub fn run(tier: Tier, caps: &Caps) -> Vec<FamilyReport> {
     for ctx in 0..5u8 {
         for id in ALL_PROP_IDS {
             for value in 0..values_for(id).len() {
-                let states: Vec<u8> = if ctx == 4 { vec![0] } else { vec![0, 1, 2, 3] };
+                let states: Vec<u8> = if ctx == 4 { vec![0] } else { vec![0, 1, 2, 3, 4] };
                 for state in states {
                     let qoss: Vec<u8> = if ctx == 0 { vec![0, 1, 2] } else { vec![0] };
                     for qos in qoss {
@@ -656,7 +664,7 @@ pub fn run(tier: Tier, caps: &Caps) -> Vec<FamilyReport> {
         "C19",
         pc.len() as u64,
         caps,
-        json!({"cases": pc.len(), "dimensions": "27 property kinds x boundary values (bytes 0/1/2/255, u16 0/1/65535, u32 0/1/max, varint 0/1/max/max+1, strings and binaries empty/1/40, pairs) x {publish at QoS 0/1/2, subscribe, unsubscribe, disconnect, will} x session state {fresh, requests in flight, send quota exhausted, dead handle} x {alone, behind, in front of a legal user property}; expectation table from MQTT 5 sections 3.1.3.2, 3.3.2.3, 3.8.2.1, 3.10.2.1, 3.14.2.2"}),
+        json!({"cases": pc.len(), "dimensions": "27 property kinds x boundary values (bytes 0/1/2/255, u16 0/1/65535, u32 0/1/max, varint 0/1/max/max+1, strings and binaries empty/1/40, pairs) x {publish at QoS 0/1/2, subscribe, unsubscribe, disconnect, will} x session state {fresh, requests in flight, send quota exhausted, dead handle, table of requests in flight full} x {alone, behind, in front of a legal user property}; expectation table from MQTT 5 sections 3.1.3.2, 3.3.2.3, 3.8.2.1, 3.10.2.1, 3.14.2.2"}),
         &|i| eval_prop(&pc[i as usize]),
         &|i| serde_json::to_value(&pc[i as usize]).unwrap(),
     ));
